@@ -29,6 +29,11 @@ fn worker() {
                 aw = Some(engine_a::AWorker::new(engine_a::ACfg::dec(r.bytes())));
                 vec![0]
             }
+            engine_a::JOB_A_BASE => {
+                let mut r = Rd::new(payload);
+                aw.as_mut().expect("engine A not configured").base = subject::Image::unpack(r.bytes());
+                vec![0]
+            }
             engine_a::JOB_A_EXPAND => aw.as_mut().expect("engine A not configured").expand(payload, io),
             props_a::JOB_A_SEED => props_a::run_seed(payload),
             k => engine_b::worker_job(k, payload, io),
